@@ -116,8 +116,9 @@ Inductive op :=
 | Start (n : nat) (pre : files)    (* dask observation: run_mode only (lazy result kept) *)
 | Compute (i : nat).               (* compute the lazy result of simulation i (counting Run and Start) *)
 
-(* what the lazy graph of a started dask observation holds on to *)
-Record pend := { p_dir : string; p_req : request; p_nruns : nat; p_ep : nat; p_live : bool }.
+(* what the lazy graph of a started dask observation holds on to (p_pre: what was in its directory
+   when it was started — not used by [step], kept for the statements about histories) *)
+Record pend := { p_dir : string; p_req : request; p_nruns : nat; p_ep : nat; p_pre : files; p_live : bool }.
 
 Record hstate := { h_cfg : cfg; h_cur : option string; h_pend : list pend }.
 
@@ -142,7 +143,7 @@ Definition nruns_of (m : mode) (n : nat) : nat := match m with MExposure => 1 | 
 
 Definition kill (i : nat) (l : list pend) : list pend :=
   upd_nth i (fun p => {| p_dir := p_dir p; p_req := p_req p; p_nruns := p_nruns p; p_ep := p_ep p;
-                         p_live := false |}) l.
+                         p_pre := p_pre p; p_live := false |}) l.
 
 (* one operation.  Returns the new state, world, the number of simulations started so far, and the
    records of the simulations that finished in this step. *)
@@ -158,7 +159,7 @@ Definition step (m : mode) (T : tables) (excl : bool) (ts : string) (o : op)
           | (fs', rep, e) =>
               ({| h_cfg := h_cfg st; h_cur := Some p;
                   h_pend := (h_pend st ++ [{| p_dir := p; p_req := c_req (h_cfg st); p_nruns := n; p_ep := ep;
-                                              p_live := false |}])%list |},
+                                              p_pre := pre; p_live := false |}])%list |},
                (p, fs') :: w, S ep,
                [{| r_ep := ep; r_dir := p; r_at := p; r_rep := rep; r_err := e; r_files := fs' |}])
           end
@@ -171,12 +172,12 @@ Definition step (m : mode) (T : tables) (excl : bool) (ts : string) (o : op)
           match dask_meta_err T ep req with
           | Some e =>
               ({| h_cfg := h_cfg st; h_cur := Some p;
-                  h_pend := (h_pend st ++ [{| p_dir := p; p_req := req; p_nruns := n; p_ep := ep; p_live := false |}])%list |},
+                  h_pend := (h_pend st ++ [{| p_dir := p; p_req := req; p_nruns := n; p_ep := ep; p_pre := pre; p_live := false |}])%list |},
                (p, pre) :: w, S ep,
                [{| r_ep := ep; r_dir := p; r_at := p; r_rep := []; r_err := Some e; r_files := pre |}])
           | None =>
               ({| h_cfg := h_cfg st; h_cur := Some p;
-                  h_pend := (h_pend st ++ [{| p_dir := p; p_req := req; p_nruns := n; p_ep := ep; p_live := true |}])%list |},
+                  h_pend := (h_pend st ++ [{| p_dir := p; p_req := req; p_nruns := n; p_ep := ep; p_pre := pre; p_live := true |}])%list |},
                (p, pre) :: w, S ep, [])
           end
       end
